@@ -261,3 +261,71 @@ pub fn run_bytes(req: &J) -> J {
   }
   json!({"res": res})
 }
+
+// ctx: write a model-given instruction list (plus f64 constants and symbols) into a real file through the REAL compiler
+// context (CompileCtx::emit_* / compile_const / define_symbol / compile), then load it with the real loader and report
+// what was decoded: the instruction section bytes, the decoded instructions, header counts, symbols and constants.
+pub fn run_ctx(req: &J) -> J {
+  let instrs = req.get("instrs").and_then(|s| s.as_array()).cloned().unwrap_or_default();
+  let nconst = req.get("nconst").and_then(|n| n.as_u64()).unwrap_or(0);
+  let syms = req.get("symbols").and_then(|s| s.as_array()).cloned().unwrap_or_default();
+  let r = catch_unwind(AssertUnwindSafe(|| -> MResult<J> {
+    let mut ctx = CompileCtx::new();
+    for c in 0..nconst {
+      let v: f64 = (c as f64) + 0.5;
+      ctx.compile_const(&v.to_le_bytes(), ValueKind::F64)?;
+    }
+    let mut maxreg: u32 = 0;
+    for ins in instrs.iter() {
+      let op = ins["op"].as_str().unwrap_or("");
+      let fxn = ins["fxn"].as_u64().unwrap_or(0);
+      let dst = ins["dst"].as_u64().unwrap_or(0) as u32;
+      let a: Vec<u32> = ins["args"].as_array().map(|v| v.iter().map(|x| x.as_u64().unwrap_or(0) as u32).collect()).unwrap_or_default();
+      maxreg = maxreg.max(dst);
+      if op != "ConstLoad" { for x in a.iter() { maxreg = maxreg.max(*x); } }
+      match op {
+        "ConstLoad" => ctx.emit_const_load(dst, a[0]),
+        "NullOp" => ctx.emit_nullop(fxn, dst),
+        "UnOp" => ctx.emit_unop(fxn, dst, a[0]),
+        "BinOp" => ctx.emit_binop(fxn, dst, a[0], a[1]),
+        "TernOp" => ctx.emit_ternop(fxn, dst, a[0], a[1], a[2]),
+        "QuadOp" => ctx.emit_quadop(fxn, dst, a[0], a[1], a[2], a[3]),
+        "VarArg" => ctx.emit_varop(fxn, dst, a.clone()),
+        "Ret" => ctx.emit_ret(a[0]),
+        _ => {}
+      }
+    }
+    ctx.next_reg = maxreg + 1;
+    for s in syms.iter() {
+      let name = s["name"].as_str().unwrap_or("v");
+      ctx.define_symbol(s["ptr"].as_u64().unwrap_or(0) as usize, s["reg"].as_u64().unwrap_or(0) as u32, name, s["mutable"].as_bool().unwrap_or(false));
+    }
+    let bytes = ctx.compile()?;
+    let prog = ParsedProgram::from_bytes(&bytes)?;
+    let io = prog.header.instr_off as usize;
+    let il = prog.header.instr_len as usize;
+    let section = if io + il <= bytes.len() { hex(&bytes[io..io + il]) } else { "".to_string() };
+    let decoded: Vec<J> = prog.instrs.iter().map(|i| match i {
+      DecodedInstr::ConstLoad { dst, const_id } => json!({"op":"ConstLoad","fxn":0,"dst":dst,"args":[const_id]}),
+      DecodedInstr::NullOp { fxn_id, dst } => json!({"op":"NullOp","fxn":fxn_id,"dst":dst,"args":[]}),
+      DecodedInstr::UnOp { fxn_id, dst, src } => json!({"op":"UnOp","fxn":fxn_id,"dst":dst,"args":[src]}),
+      DecodedInstr::BinOp { fxn_id, dst, lhs, rhs } => json!({"op":"BinOp","fxn":fxn_id,"dst":dst,"args":[lhs,rhs]}),
+      DecodedInstr::TernOp { fxn_id, dst, a, b, c } => json!({"op":"TernOp","fxn":fxn_id,"dst":dst,"args":[a,b,c]}),
+      DecodedInstr::QuadOp { fxn_id, dst, a, b, c, d } => json!({"op":"QuadOp","fxn":fxn_id,"dst":dst,"args":[a,b,c,d]}),
+      DecodedInstr::VarArg { fxn_id, dst, args } => json!({"op":"VarArg","fxn":fxn_id,"dst":dst,"args":args}),
+      DecodedInstr::Ret { src } => json!({"op":"Ret","fxn":0,"dst":0,"args":[src]}),
+      DecodedInstr::Unknown { opcode, .. } => json!({"op":"Unknown","fxn":0,"dst":0,"args":[opcode]}),
+    }).collect();
+    let reenc = prog.to_bytes()?;
+    let mut symv: Vec<J> = prog.symbols.iter().map(|(id, reg)| json!({"name": prog.dictionary.get(id).cloned().unwrap_or_default(), "reg": reg, "mutable": prog.mutable_symbols.contains(id)})).collect();
+    symv.sort_by(|a, b| a["name"].as_str().unwrap_or("").cmp(b["name"].as_str().unwrap_or("")));
+    let consts = prog.decode_const_entries()?;
+    Ok(json!({"r":"ok","section":section,"decoded":decoded,"header":header_json(&prog.header),"reenc_eq": reenc == bytes,
+              "symbols":symv,"consts": consts.iter().map(project).collect::<Vec<_>>(), "len": bytes.len()}))
+  }));
+  match r {
+    Ok(Ok(j)) => j,
+    Ok(Err(e)) => json!({"r":"err","class":e.kind_name()}),
+    Err(p) => json!({"r":"panic","msg":panic_msg(&p)}),
+  }
+}
